@@ -41,10 +41,11 @@ structure Obj (K : Type) where
   locked : Bool
   mag : Nat             -- generator's bound on |entry| (also covers the harness-only float/complex variants)
   born1 : Bool          -- a RowVector_ constructed with exactly one element (its helper is column-oriented: finding)
+  rowOrder : Bool       -- a Matrix_ constructed with exactly one row (≠ 1 column): row-ordered storage
 
 def Obj.layout {K} (o : Obj K) : AView :=
   match o.kind with
-  | .mat => AView.ownerMatrix o.nr o.nc
+  | .mat => if o.rowOrder then AView.ownerMatrixRowOrder o.nr o.nc else AView.ownerMatrix o.nr o.nc
   | .vec => AView.ownerVector o.nr
   | .row => AView.ownerRowVector o.nc
 
@@ -54,9 +55,9 @@ def nameOfIdx (i : Nat) : String :=
 
 def emptyObj (K : Type) (i : Nat) : Obj K :=
   match kindOfIdx i with
-  | .mat => ⟨.mat, true, 0, 0, #[], i, [], .mat, 0, false, 0, false⟩
-  | .vec => ⟨.vec, true, 0, 1, #[], i, [], .vec, 0, false, 0, false⟩
-  | .row => ⟨.row, true, 1, 0, #[], i, [], .row, 0, false, 0, false⟩
+  | .mat => ⟨.mat, true, 0, 0, #[], i, [], .mat, 0, false, 0, false, false⟩
+  | .vec => ⟨.vec, true, 0, 1, #[], i, [], .vec, 0, false, 0, false, false⟩
+  | .row => ⟨.row, true, 1, 0, #[], i, [], .row, 0, false, 0, false, false⟩
 
 abbrev St (K : Type) := Array (Obj K)
 def initSt (K : Type) : St K := (Array.range 8).map (emptyObj K)
@@ -206,7 +207,7 @@ def assignOwner (st : St K) (o : Nat) (d : Dense K) (mag : Nat) : St K :=
   | none => st
   | some ob =>
     let lay : AView := match ob.kind with
-      | .mat => AView.ownerMatrix d.nr d.nc
+      | .mat => if ob.rowOrder then AView.ownerMatrixRowOrder d.nr d.nc else AView.ownerMatrix d.nr d.nc
       | .vec => AView.ownerVector d.nr
       | .row => AView.ownerRowVector d.nc
     let rv := resolve lay []
@@ -246,7 +247,7 @@ def binIP (st : St K) (d s : Expr) (f : Dense K → Dense K → Dense K) (shapeR
   match resolveExpr st d, resolveExpr st s with
   | some rd, some rs =>
     if !(rd.legal && rs.legal) || rd.owner == rs.owner || !shapeReq rd rs then .illegal else
-    let m := mag (magOf st rd) (magOf st rs)
+    let m := max (magOf st rd) (mag (magOf st rd) (magOf st rs))   -- cells outside the view keep their old values
     if m > cap then .illegal else
     .ok (writeRes st rd (f (denseRes st rd) (denseRes st rs)) m) [] [rd.owner]
   | _, _ => .illegal
@@ -258,7 +259,7 @@ def unIP (st : St K) (d : Expr) (f : Dense K → Dense K) (mag : Nat → Nat) : 
   match resolveExpr st d with
   | some rd =>
     if !rd.legal then .illegal else
-    let m := mag (magOf st rd)
+    let m := max (magOf st rd) (mag (magOf st rd))
     if m > cap then .illegal else
     .ok (writeRes st rd (f (denseRes st rd)) m) [] [rd.owner]
   | none => .illegal
@@ -300,7 +301,9 @@ def step (absK : K → Nat) (st : St K) : Op K → Outcome K
         | some bb => st.set! ob.base { bb with nviews := bb.nviews - 1 }
         | none => st
       let m := vals.foldl (fun acc x => max acc (absK x + 3)) 0
-      let fresh : Obj K := { emptyObj K o with nr := nr, nc := nc, born1 := (ob.kind == .row && nc == 1) }
+      let b1 : Bool := ob.kind == .row && nc == 1
+      let ro : Bool := ob.kind == .mat && nr == 1 && nc != 1
+      let fresh : Obj K := { emptyObj K o with nr := nr, nc := nc, born1 := b1, rowOrder := ro }
       let st2 := st1.set! o fresh
       .ok (assignOwner st2 o ⟨nr, nc, fun i j => vals.getD (i * nc + j) 0⟩ m) [] [o]
   | .resize o m n v =>
@@ -469,7 +472,7 @@ def step (absK : K → Nat) (st : St K) : Op K → Outcome K
       match st1[r.owner]? with
       | some bb =>
         let st2 := st1.set! r.owner { bb with nviews := bb.nviews + 1 }
-        let h : Obj K := ⟨.mat, false, r.view.nr, r.view.nc, #[], r.owner, r.ops, r.kind, 0, false, 0, false⟩
+        let h : Obj K := ⟨.mat, false, r.view.nr, r.view.nc, #[], r.owner, r.ops, r.kind, 0, false, 0, false, false⟩
         .ok (st2.set! o h) [] [r.owner]
       | none => .illegal
     | _, _ => .illegal
